@@ -1,3 +1,4 @@
 """C04 - client-to-server packets."""
-FUNCTIONS = ['socket.Socket.receive', 'async_socket.AsyncSocket.receive']
+FUNCTIONS = ['socket.Socket.receive', 'async_socket.AsyncSocket.receive',
+             'socket.Socket.handle_post_request', 'async_socket.AsyncSocket.handle_post_request']
 CLAIMED = False
